@@ -147,7 +147,7 @@ type SwitchTable struct {
 	Stmt   *ast.SwitchStmt // nil for tables read from a map lookup or an if/else-if chain
 	At     token.Pos
 	TagObj types.Object // the variable dispatched on, when it is a plain identifier
-	Arms []*SwitchArm
+	Arms   []*SwitchArm
 }
 
 // switchesOn returns the dispatches in f over exactly the variable v: tagged switches, if/else-if chains comparing v
@@ -497,6 +497,37 @@ func (c *Ctx) callbackFunc(f *FuncInfo, e ast.Expr) (*FuncInfo, map[types.Object
 		return c.byLit[lit], bind
 	}
 	if fn, ok := objOfIdentOrSel(info, e).(*types.Func); ok {
+		// a method value on a local whose only definition is a composite literal (`w := &T{o, hdrs}` ... `w.replace`): the
+		// method sees the literal's elements through its receiver's fields
+		if se, isSel := e.(*ast.SelectorExpr); isSel {
+			if lv, ok := objOfIdent(info, se.X).(*types.Var); ok && !lv.IsField() {
+				if def := singleDefExpr(f, lv); def != nil {
+					d := ast.Unparen(def)
+					if u, ok := d.(*ast.UnaryExpr); ok && u.Op == token.AND {
+						d = ast.Unparen(u.X)
+					}
+					if lit, ok := d.(*ast.CompositeLit); ok {
+						if tv, ok := info.Types[lit]; ok {
+							if st, ok := tv.Type.Underlying().(*types.Struct); ok {
+								bind := map[types.Object]ast.Expr{}
+								for i, el := range lit.Elts {
+									if kv, ok := el.(*ast.KeyValueExpr); ok {
+										if id, ok := kv.Key.(*ast.Ident); ok {
+											if fo := info.Uses[id]; fo != nil {
+												bind[fo] = kv.Value
+											}
+										}
+									} else if i < st.NumFields() {
+										bind[st.Field(i)] = el
+									}
+								}
+								return c.byObj[fn], bind
+							}
+						}
+					}
+				}
+			}
+		}
 		return c.byObj[fn], nil
 	}
 	if v, ok := objOfIdent(info, e).(*types.Var); ok {
@@ -595,4 +626,152 @@ func usesObjThrough(f *FuncInfo, e ast.Node, o types.Object) bool {
 		return !found
 	})
 	return found
+}
+
+// roleVar: the variable that plays the role of the parameter called name in f - the parameter itself or, when f takes
+// its scalars grouped in a struct, the local defined exactly once from the field of that name of a struct parameter
+// (`offset := opts.Offset`).
+func roleVar(f *FuncInfo, name string) *types.Var {
+	if v := paramVar(f, name); v != nil {
+		return v
+	}
+	if f.Body() == nil {
+		return nil
+	}
+	info := f.Pkg.TypesInfo
+	isParam := func(e ast.Expr) bool {
+		if st, ok := ast.Unparen(e).(*ast.StarExpr); ok {
+			e = st.X
+		}
+		o := objOfIdent(info, e)
+		if o == nil {
+			return false
+		}
+		for _, p := range paramsWhere(f, func(*types.Var) bool { return true }) {
+			if types.Object(p) == o {
+				return true
+			}
+		}
+		return false
+	}
+	var found *types.Var
+	writes := map[types.Object]int{}
+	walkOwn(f.Body(), func(n ast.Node) {
+		as, ok := n.(*ast.AssignStmt)
+		if !ok {
+			if ids, ok := n.(*ast.IncDecStmt); ok {
+				if o := objOfIdent(info, ids.X); o != nil {
+					writes[o]++
+				}
+			}
+			return
+		}
+		for i, l := range as.Lhs {
+			id, ok := l.(*ast.Ident)
+			if !ok {
+				continue
+			}
+			o := info.Defs[id]
+			if o == nil {
+				o = info.Uses[id]
+			}
+			if o == nil {
+				continue
+			}
+			writes[o]++
+			if as.Tok != token.DEFINE || len(as.Lhs) != len(as.Rhs) || id.Name != name {
+				continue
+			}
+			if sel, ok := ast.Unparen(as.Rhs[i]).(*ast.SelectorExpr); ok && strings.EqualFold(sel.Sel.Name, name) && isParam(sel.X) {
+				if v, ok := o.(*types.Var); ok {
+					found = v
+				}
+			}
+		}
+	})
+	if found != nil && writes[found] == 1 {
+		return found
+	}
+	return nil
+}
+
+// roleArg: the expression a call passes for the role `name` of the callee with signature sig: the positional argument
+// of the parameter of that name or, when the callee takes a struct (or a pointer to one) with a field of that name,
+// the element keyed by it in the composite literal passed (directly or through a local defined once). ok is false
+// when the callee has no such role or the argument cannot be traced; a nil expression with ok means the field is left
+// at its zero value.
+func roleArg(f *FuncInfo, call *ast.CallExpr, sig *types.Signature, name string) (ast.Expr, bool) {
+	info := f.Pkg.TypesInfo
+	for i := 0; i < sig.Params().Len() && i < len(call.Args); i++ {
+		p := sig.Params().At(i)
+		if sig.Variadic() && i == sig.Params().Len()-1 {
+			break
+		}
+		if p.Name() == name {
+			return call.Args[i], true
+		}
+		t := p.Type()
+		if pt, ok := t.Underlying().(*types.Pointer); ok {
+			t = pt.Elem()
+		}
+		st, ok := t.Underlying().(*types.Struct)
+		if !ok {
+			continue
+		}
+		fi := -1
+		for j := 0; j < st.NumFields(); j++ {
+			if strings.EqualFold(st.Field(j).Name(), name) {
+				fi = j
+			}
+		}
+		if fi < 0 {
+			continue
+		}
+		arg := ast.Unparen(call.Args[i])
+		if u, ok := arg.(*ast.UnaryExpr); ok && u.Op == token.AND {
+			arg = ast.Unparen(u.X)
+		}
+		if o := objOfIdent(info, arg); o != nil {
+			for g := f; g != nil; g = g.Outer {
+				if d := singleDefExpr(g, o); d != nil {
+					arg = ast.Unparen(d)
+					if u, ok := arg.(*ast.UnaryExpr); ok && u.Op == token.AND {
+						arg = ast.Unparen(u.X)
+					}
+					// later field stores would change the value
+					stored := false
+					walkOwn(g.Body(), func(n ast.Node) {
+						if as, ok := n.(*ast.AssignStmt); ok {
+							for _, l := range as.Lhs {
+								if sel, ok := l.(*ast.SelectorExpr); ok && objOfIdent(info, sel.X) == o {
+									stored = true
+								}
+							}
+						}
+					})
+					if stored {
+						return nil, false
+					}
+					break
+				}
+			}
+		}
+		lit, ok := arg.(*ast.CompositeLit)
+		if !ok {
+			return nil, false
+		}
+		for j, el := range lit.Elts {
+			if kv, ok := el.(*ast.KeyValueExpr); ok {
+				if k, ok := kv.Key.(*ast.Ident); ok && strings.EqualFold(k.Name, name) {
+					return kv.Value, true
+				}
+				continue
+			}
+			if j == fi {
+				return el, true
+			}
+		}
+		return nil, true
+	}
+	return nil, false
 }
